@@ -91,6 +91,12 @@ def move_tags(m, in_obs=None):
     names = list(in_obs["names"]) if in_obs else None
     for e in move_exprs(m):
         tags |= expr_tags(e, vis_ids)
+    if v == "resolve":
+        tags.add("op:" + m["op"])
+        for a in m["args"]:
+            tags.add("arg:" + a.replace("c:", ""))
+            if a.startswith("c:"):
+                tags.add("arg:const")
     if v in ("mutate", "summarize"):
         if names is not None and any(kv["n"] in names for kv in m["kv"]):
             tags.add(v + ":overwrite")
@@ -149,7 +155,7 @@ def behaviour_tags(fail, beh_obs):
 
 
 def signature(prop, fail, last, hist):
-    struct = ("v:", "mutate:", "summarize:", "select:", "slice:", "expr:", "agg:", "win:", "ref:", "join:", "union:", "alias:", "in:")
+    struct = ("v:", "op:" if "v:resolve" in last else "v:", "mutate:", "summarize:", "select:", "slice:", "expr:", "agg:", "win:", "ref:", "join:", "union:", "alias:", "in:")
     core = dict(p=prop, c=fail["clause"], b=fail["backend"], last=sorted(t for t in last if t.startswith(struct)),
                 hv=sorted(x for x in hist if x.startswith("h:v:")))
     if fail.get("exc"):
